@@ -935,6 +935,8 @@ def rand_c11(seed, tier, cases=None):
         out.append(dict(fam="C11", kind="payload", valid=True, mtu=20, pidon=pid, startid=start,
                         frames=[dict(len=1 + (j * 13) % 60, salt=j % 200, fillv=-1) for j in range(400)], **{"class": "long_run"}))
     out.append(dict(fam="C11", kind="payload", valid=True, mtu=12, pidon=True, startid=126, frames=[dict(len=6000, salt=4, fillv=-1), dict(len=5, salt=5, fillv=-1)], **{"class": "many_fragments"}))
+    # the picture id taken through more than a full cycle the honest way (33 000 one-packet frames, no preset)
+    out.append(dict(fam="C11", kind="payload", valid=True, mtu=20, pidon=True, startid=0, frames=[dict(len=1 + j % 3, salt=j % 200, fillv=-1) for j in range(33000)], **{"class": "full_cycle"}))
     return out
 
 
@@ -1128,7 +1130,7 @@ def rand_c12(seed, tier, cases=None):
         frames = []
         for n in range(rng.randint(1, 8)):
             pr = rng.randint(0, 3)
-            hdr = dict(profile=pr, existing=False, idx=0, nonkey=rng.random() < 0.5, show=rng.random() < 0.5, errres=rng.random() < 0.5, deep=rng.random() < 0.5,
+            hdr = dict(profile=pr, existing=rng.random() < 0.12, idx=rng.randint(0, 7), nonkey=rng.random() < 0.5, show=rng.random() < 0.5, errres=rng.random() < 0.5, deep=rng.random() < 0.5,
                        cs=rng.randint(0, 7), range=rng.random() < 0.5, ssx=rng.random() < 0.5, ssy=rng.random() < 0.5,
                        w=rng.choice([1, 2, 640, 1920, 65535, rng.randint(1, 65535)]), h=rng.choice([1, 480, 1080, 65535, rng.randint(1, 65535)]))
             frames.append(dict(hdr=hdr, body=rng.choice([0, 1, mtu - 12, mtu - 3, mtu, 2 * mtu, rng.randint(0, 3 * mtu), rng.randint(0, 14 * mtu) if mtu < 150 else 40,
@@ -1184,7 +1186,9 @@ def rand_c14(seed, tier, cases=None):
             t = rng.choice([0, 1, 19, 20, 32, 33, 34, 39, 40, 47, rng.randint(0, 47)])
             n = rng.choice([3, 4, mtu - 3, mtu - 2, mtu - 1, mtu, mtu + 1, 2 * mtu, rng.randint(3, 3 * mtu + 3), rng.randint(3, 12 * mtu) if mtu < 150 else 77])
             n = max(3, n)
-            layer, tid = rng.randint(0, 63), rng.randint(1, 7)
+            layer, tid = rng.randint(0, 63), rng.choice([0, 1, 1, 2, 3, 7, rng.randint(0, 7)])      # every value of the 3-bit field, 0 included
+            # (units with the F bit set are not generated: H265Packet refuses every payload whose header carries F = 1, so such a
+            # unit cannot take part in the round trip the statement describes)
             units.append([t << 1 | layer >> 5, (layer & 31) << 3 | tid] + [rng.randint(1, 255) for _ in range(n - 2)])
         out.append(dict(fam="C14", kind="payload", valid=True, mtu=mtu, donl=rng.random() < 0.3, skipagg=rng.random() < 0.4,
                         calls=[dict(units=units, scs=[rng.choice([3, 4]) for _ in units])], **{"class": "rand_payload"}))
